@@ -144,12 +144,16 @@ def spec_assemble(case, linebuf=None):
     stdin = case["stdin"] or ""
     exprs, skipped, excluded = [], 0, []
     srcs = list(case["sources"])
-    if not any(s[0] != "x" for s in srcs) and case["env"] is not None:
+    if not any(s[0] not in NOT_A_TARGET_SOURCE for s in srcs) and case["env"] is not None:
         srcs.append(("s",) if case["env"] == "-" else ("f", case["env"]))
     try:
         for s in srcs:
             if s[0] == "w":
                 exprs.append(s[1])
+            elif s[0] == "xw":
+                excluded.append(s[1])
+            elif s[0] in ("r", "xr"):
+                pass                    # a filter: see spec_regex
             elif s[0] in ("f", "x"):
                 if s[1] not in fs or not fs[s[1]][0]:
                     raise SpecError(s[1])
@@ -169,7 +173,19 @@ def spec_assemble(case, linebuf=None):
     return ("ok", exprs, skipped, excluded)
 
 
-def target_hosts(exprs, excluded):
+NOT_A_TARGET_SOURCE = ("x", "xw", "r", "xr")      # exclusion file, exclusion word, /regex/, -/regex/: filters, not sources
+
+
+def spec_regex(case):
+    """the filters of a command line: (negative?, pattern) in order"""
+    return [(s[0] == "xr", s[1]) for s in case["sources"] if s[0] in ("r", "xr")]
+
+
+def model_regex(field):
+    return [] if field == "~" else [(x[0] == "-", bytes.fromhex(x[1:]).decode("latin-1")) for x in field.split(",")]
+
+
+def target_hosts(exprs, excluded, regex=()):
     """the target list: hosts of the expressions in order, minus every host an exclusion file names;
     None when an excluded name occurs more than once among the targets (how many occurrences an exclusion
     removes is another property's business)"""
@@ -177,7 +193,10 @@ def target_hosts(exprs, excluded):
     ex = {h for e in excluded for h in expand_expr(e)}
     if any(hosts.count(h) > 1 for h in ex):
         return None
-    return [h for h in hosts if h not in ex]
+    out = [h for h in hosts if h not in ex]
+    for neg, pat in regex:          # /re/ keeps the names that match, -/re/ drops them (generator: patterns POSIX = Python)
+        out = [h for h in out if (re.search(pat, h) is None) == neg]
+    return out
 
 
 def opt_kind(o):
@@ -736,6 +755,25 @@ def pinned_cases(base, linebuf):
                                   ("exec:h2", None), ("exec:user@h3", None), ("h4,user@h5", None), ("a@b:c", None),
                                   ("h6::x", None), (" h7", None), ("^ t/B", None)]):
         add("word-forms:%d" % i, {"t/A": (True, "a1\n"), "t/B": (True, "b1\n")}, [("w", w)], [w], stdin=sin, stream="malformed")
+    # ---- filters are not sources: a -w argument holding ONLY a /regex/, a -/regex/ or an exclusion word does not create
+    # the list — WCOLL is still consulted, and filtered; with a real source next to it WCOLL is not
+    fd = {"t/W": (True, "h10\nh11\n#include V\n"), "t/V": (True, "h20,h21\n"), "t/E": (True, "# none\n"), "t/A": (True, "a10\na11\n")}
+    FW = {"r": (("r", "0$"), "/0$/"), "xr": (("xr", "0$"), "-/0$/"), "xw": (("xw", "h11"), "-h11"), "r2": (("r", "^h2"), "/^h2/"),
+          "w": (("w", "k10,k11"), "k10,k11"), "f": (("f", "t/A"), "^t/A"), "e": (("f", "t/E"), "^t/E"), "s": (("s",), "^-")}
+    for combo in (["r"], ["xr"], ["xw"], ["r2"], ["r", "xw"], ["xw", "r"], ["r", "r2"], ["xr", "xw"], ["r", "w"], ["w", "r"],
+                  ["xr", "f"], ["f", "xr"], ["r", "e"], ["e", "r"], ["xw", "e"], ["r", "s"], ["s", "xr"], ["xw", "w", "r"]):
+        for env in ("t/W", None):
+            for joined in (False, True):
+                if joined and len(combo) == 1:
+                    continue
+                srcs = [FW[k][0] for k in combo]
+                wargs = [",".join(FW[k][1] for k in combo)] if joined else [("-" if k == "s" else FW[k][1]) for k in combo]
+                add("filters:%s:%s:%s" % ("+".join(combo), "wcoll" if env else "noenv", "joined" if joined else "separate"),
+                    fd, srcs, wargs, stdin=("s10\ns11\n" if "s" in combo else None), env=env, stream="filters")
+        # the same filters given with -x
+        if all(k in ("xr", "xw") for k in combo):
+            add("filters:%s:-x" % "+".join(combo), fd, [FW[k][0] for k in combo], [("x", ",".join(FW[k][1][1:] for k in combo))],
+                env="t/W", stream="filters")
     # ---- G. missing / unreadable at every depth (an ERROR, never a shorter list), also behind hosts already read
     chain = graphs["chain"]
     for depth, victim in enumerate("ABCD"):
@@ -893,7 +931,8 @@ def model_line(case, mode):
 
 
 def spec_line(case):
-    srcs = ["s" if s[0] == "s" else "%s:%s" % (s[0], hx(s[1])) for s in case["sources"]]     # w: f: x: s
+    srcs = ["s" if s[0] == "s" else "%s:%s" % (s[0], hx(s[1])) for s in case["sources"]
+            if s[0] not in ("xw", "r", "xr")]     # w: f: x: s   (exclusion words and regex filters: not in WcollSpec)
     f = [hx(case["stdin"]) if case["stdin"] is not None else "~", hx(case["env"]) if case["env"] is not None else "~",
          str(len(srcs))] + srcs + fs_fields(case["fs"])
     return " ".join(f) + "\n"
@@ -927,7 +966,8 @@ BRANCHES = [
     "reader:line+nl=k*(buffer-1)", "reader:line+nl=k*(buffer-1)+1", "reader:exact-multiple-followed-by-line",
     # read_wcoll / opt.c
     "source:-w word", "source:^file", "source:- (stdin)", "source:^- (stdin)", "source:stdin-twice",
-    "source:WCOLL-used", "source:WCOLL-ignored", "source:-x ^file", "source:-^file word", "source:-x ^F,^G",
+    "source:WCOLL-used", "source:WCOLL-ignored", "source:/regex/ word", "source:-/regex/ word", "source:-word (exclusion)",
+    "source:only-filters+WCOLL", "source:-x ^file", "source:-^file word", "source:-x ^F,^G",
     "source:top-missing-or-unreadable=errx", "source:comma-joined -w",
     "outcome:ok", "outcome:errx", "outcome:no-remote-hosts",
 ]
@@ -1001,14 +1041,22 @@ def branches_of(c, r):
                 nstdin += 1
             elif pc.startswith("-^"):
                 b.add("source:-^file word")
+            elif pc.startswith("/"):
+                b.add("source:/regex/ word")
+            elif pc.startswith("-/"):
+                b.add("source:-/regex/ word")
+            elif pc.startswith("-"):
+                b.add("source:-word (exclusion)")
             elif pc.startswith("^"):
                 b.add("source:^file")
             else:
                 b.add("source:-w word")
     if nstdin > 1:
         b.add("source:stdin-twice")
+    if c["env"] is not None and c["sources"] and not any(s[0] not in ("xw", "r", "xr") for s in c["sources"]):
+        b.add("source:only-filters+WCOLL")
     if c["env"] is not None:
-        b.add("source:WCOLL-used" if not any(s[0] != "x" for s in c["sources"]) else "source:WCOLL-ignored")
+        b.add("source:WCOLL-used" if not any(s[0] not in NOT_A_TARGET_SOURCE for s in c["sources"]) else "source:WCOLL-ignored")
     if r["rc"] == 0:
         b.add("outcome:ok")
     elif r.get("nohosts"):
@@ -1053,7 +1101,7 @@ def judge(ctx, pdsh, cases, mode, linebuf):
 
     def predicted_bytes(ml):
         f = ml.split(" ")
-        if len(f) != 7 or f[0] != "ok":
+        if len(f) != 8 or f[0] != "ok":
             return 0
         return sum(len(h) + 1 for e in unl(f[3]) for h in expand_expr(e))   # (before exclusion: an upper bound)
     def spec_bytes(c):
@@ -1091,11 +1139,11 @@ def judge(ctx, pdsh, cases, mode, linebuf):
         # many, the probe (TOPFD[0]: the number of file sources at which the real pdsh runs out under 40 descriptors)
         # says when that is too many
         exhausted = False
-        if len(mf) == 7 and TOPFD[0] and r.get("nofile"):
+        if len(mf) == 8 and TOPFD[0] and r.get("nofile"):
             exhausted = int(mf[6]) >= TOPFD[0] - (NOFILE_DEFAULT - r["nofile"])
         res_top = out[-1]
-        res_top["top_open"] = int(mf[6]) if len(mf) == 7 else None
-        if len(mf) != 7:
+        res_top["top_open"] = int(mf[6]) if len(mf) == 8 else None
+        if len(mf) != 8:
             v.append(("disagreement", "model answer", ml[:200]))
         elif exhausted:
             if not (r["rc"] == 1 and r["emfile"]):
@@ -1103,7 +1151,7 @@ def judge(ctx, pdsh, cases, mode, linebuf):
                           (mf[6], r["nofile"], r["rc"], r["err"][-100:])))
         else:
             status, nwarn, created, exprs = mf[0], int(mf[1]), mf[2], unl(mf[3])
-            mhosts = target_hosts(exprs, unl(mf[4]))
+            mhosts = target_hosts(exprs, unl(mf[4]), model_regex(mf[7]))
             if status == "starved":
                 v.append(("disagreement", "model ran out of fuel", ml[:100]))
             elif status == "fatal":
@@ -1129,7 +1177,7 @@ def judge(ctx, pdsh, cases, mode, linebuf):
         sf = sl.split(" ")
         lean_sp = ("error",) if sf[0] == "error" else ("ok", unl(sf[2]), int(sf[1]), unl(sf[3])) if len(sf) == 4 \
             else ("bad", sl[:80])
-        if lean_sp != sp:
+        if lean_sp != sp and not any(s[0] in ("xw", "r", "xr") for s in c["sources"]):
             v.append(("disagreement", "Opt/WcollSpec.lean vs the check's reading of the property",
                       "lean %r python %r" % (str(lean_sp)[:200], str(sp)[:200])))
         bad = None
@@ -1138,7 +1186,7 @@ def judge(ctx, pdsh, cases, mode, linebuf):
                 bad = ("unreadable-not-error", "a source or included file is unreadable/missing but pdsh exits %s with "
                        "hosts %r" % (r["rc"], (r["hosts"] or [])[:6]))
         else:
-            hosts = target_hosts(sp[1], sp[3])
+            hosts = target_hosts(sp[1], sp[3], spec_regex(c))
             if hosts is None:
                 pass
             elif not hosts:
@@ -1154,7 +1202,7 @@ def judge(ctx, pdsh, cases, mode, linebuf):
                 sig = "hosts"
                 if max_line(c) >= 2047 and linebuf:
                     sp2 = spec_assemble(c, linebuf=linebuf)
-                    if sp2[0] == "ok" and target_hosts(sp2[1], sp2[3]) == r["hosts"]:
+                    if sp2[0] == "ok" and target_hosts(sp2[1], sp2[3], spec_regex(c)) == r["hosts"]:
                         sig = "line-split-by-fgets"
                 bad = (sig, "target list differs at position %d: pdsh %r, property %r (list lengths %d / %d)" %
                        (k, r["hosts"][max(0, k - 1):k + 3], hosts[max(0, k - 1):k + 3], len(r["hosts"]), len(hosts)))
